@@ -253,6 +253,13 @@ theorem containsUnary_correct (T : Tables α) (mask : Array Bool) (N : Nat) (hV 
   rw [hs']
   rfl
 
+theorem parents_below (T : Tables α) (N : Nat) (h : nodesBelowB T N = true) :
+    ∀ e, e < T.numEdges → T.par e < N := by
+  intro e he
+  simp only [nodesBelowB, List.all_eq_true, List.mem_range, Bool.and_eq_true,
+    decide_eq_true_eq] at h
+  exact (h e he).1
+
 end
 
 /-! ### `has_locally_unary_nodes`: testing parents at their edges' end points is enough -/
